@@ -48,6 +48,9 @@ theorem Keep.push {b : Nat} (s : St) (e : Entry) (h : syncKind b e = none) : Kee
 theorem Keep.setSteps {b : Nat} (s : St) (x : Nat) (k : Int) (h : x ≠ b) : Keep b s (s.setSteps x k) :=
   fun _ => ⟨by simp [upd, Ne.symm h], rfl⟩
 
+theorem refuse_log (s : St) : s.refuse.log = s.log := by unfold St.refuse; split <;> rfl
+theorem refuse_steps (s : St) : s.refuse.steps = s.steps := by unfold St.refuse; split <;> rfl
+
 def FrameSpec (rec : Call → St → St) : Prop := ∀ call s b, Keep b s (rec call s)
 
 theorem handlerFrame_steps (s : St) : s.handlerFrame.steps = s.steps := by
@@ -75,7 +78,7 @@ theorem eventBody_frame (rec : Call → St → St) (hr : FrameSpec rec) (d : Nat
   dsimp only
   have k1 : Keep b s (s.push (.arrive d)) := Keep.push s _ rfl
   split
-  · exact k1.trans (Keep.of_eq rfl rfl)
+  · exact k1.trans ((Keep.push _ (.refused d) rfl).trans (Keep.of_eq (refuse_log _) (refuse_steps _)))
   · generalize hs2 : (if 0 ≤ ((s.push (.arrive d)).setActive d true).steps d ∧
         ((s.push (.arrive d)).setActive d true).steps d < 2
       then (rec (.initS d true) (((s.push (.arrive d)).setActive d true).setActive d false)).setActive d true
@@ -265,7 +268,7 @@ theorem eventBody_J (rec : Call → St → St) (hr : ShapeSpec rec) (d : Nat) (v
   dsimp only
   have h1 : J (s.push (.arrive d)) := h.push_none _ (fun _ => rfl)
   split
-  · exact h1.of_eq rfl rfl
+  · exact (h1.push_none (.refused d) (fun _ => rfl)).of_eq (refuse_log _) (refuse_steps _)
   · generalize hs2 : (if 0 ≤ ((s.push (.arrive d)).setActive d true).steps d ∧
         ((s.push (.arrive d)).setActive d true).steps d < 2
       then (rec (.initS d true) (((s.push (.arrive d)).setActive d true).setActive d false)).setActive d true
@@ -467,5 +470,210 @@ theorem run_J (c : Cfg) : J (run c) := by
 
 theorem shape_sublist (k : Int) (l : List SK) (h : Shape k l) : l.Sublist [.P, .R, .D] := by
   rcases h with ⟨_, e⟩ | ⟨_, e | e⟩ | ⟨_, e | e | e | e⟩ <;> subst e <;> decide
+
+/-! ### a refused recursive event sets the error register, and the register is never cleared -/
+
+def Rf (s : St) : Prop := (∃ d, Entry.refused d ∈ s.log) → s.aborted = true
+
+def RfSpec (rec : Call → St → St) : Prop := ∀ call s, Rf s → Rf (rec call s)
+
+theorem Rf.mono {s t : St} (h : Rf s) (hl : t.log = s.log) (ha : s.aborted = true → t.aborted = true) :
+    Rf t := by
+  intro hx; rw [hl] at hx; exact ha (h hx)
+
+theorem Rf.push {s : St} (h : Rf s) (e : Entry) (he : ∀ d, e ≠ .refused d) : Rf (s.push e) := by
+  intro ⟨d, hd⟩
+  simp only [push_log, List.mem_append, List.mem_singleton] at hd
+  rcases hd with hd | hd
+  · exact h ⟨d, hd⟩
+  · exact absurd hd.symm (he d)
+
+theorem handlerFrame_aborted (s : St) (h : s.aborted = true) : s.handlerFrame.aborted = true := by
+  unfold St.handlerFrame; split <;> simp_all
+
+theorem monitor_aborted (s : St) (h : s.aborted = true) : s.monitor.aborted = true := by
+  unfold St.monitor; split <;> simp_all
+
+theorem refuse_aborted (s : St) : s.refuse.aborted = true := by
+  unfold St.refuse; split <;> simp_all
+
+theorem setOutputBody_Rf (c : Cfg) (rec : Call → St → St) (hr : RfSpec rec) (x : Nat) (v : Val) (s : St)
+    (h : Rf s) : Rf (setOutputBody c rec x v s) := by
+  unfold setOutputBody
+  split
+  · exact h.mono rfl id
+  · split
+    · exact h
+    · exact hr _ _ (h.mono (t := s.setOut x v) rfl id)
+
+theorem sendBody_Rf (rec : Call → St → St) (hr : RfSpec rec) (ds : List Nat) (v : Val) (s : St)
+    (h : Rf s) : Rf (sendBody rec ds v s) := by
+  unfold sendBody
+  cases ds with
+  | nil => exact h
+  | cons d r => exact hr _ _ (hr _ _ h)
+
+theorem eventBody_Rf (rec : Call → St → St) (hr : RfSpec rec) (d : Nat) (v : Val) (s : St)
+    (h : Rf s) : Rf (eventBody rec d v s) := by
+  unfold eventBody
+  dsimp only
+  have h1 : Rf (s.push (.arrive d)) := h.push _ (fun _ => by simp)
+  split
+  · exact fun _ => refuse_aborted _
+  · generalize hs2 : (if 0 ≤ ((s.push (.arrive d)).setActive d true).steps d ∧
+        ((s.push (.arrive d)).setActive d true).steps d < 2
+      then (rec (.initS d true) (((s.push (.arrive d)).setActive d true).setActive d false)).setActive d true
+      else (s.push (.arrive d)).setActive d true) = s2
+    have h2 : Rf s2 := by
+      rw [← hs2]; split
+      · exact (hr _ _ (h1.mono (t := ((s.push (.arrive d)).setActive d true).setActive d false)
+          rfl id)).mono rfl id
+      · exact h1.mono rfl id
+    refine Rf.mono (s := if s2.ok then
+      (rec (.setOutput d v) (s2.push (.handle d v (s2.steps d)))).handlerFrame else s2) ?_ rfl id
+    split
+    · exact (hr _ _ (h2.push _ (fun _ => by simp))).mono (handlerFrame_log _) (handlerFrame_aborted _)
+    · exact h2
+
+theorem step1_Rf (c : Cfg) (rec : Call → St → St) (hr : RfSpec rec) (x : Nat) (s : St)
+    (h : Rf s) : Rf (step1 c rec x s) := by
+  unfold step1
+  dsimp only
+  have key : ∀ m : St, Rf m → Rf (m.setSteps x 1) := fun m hm => hm.mono rfl id
+  apply key
+  have ha1 : Rf (s.setSteps x (-1)) := h.mono rfl id
+  split
+  · exact ha1
+  · exact ha1.push _ (fun _ => by simp)
+  · exact (hr _ _ (ha1.push _ (fun _ => by simp))).mono rfl id
+
+theorem regularBody_Rf (c : Cfg) (rec : Call → St → St) (hr : RfSpec rec) (x : Nat) (s : St) (h : Rf s) :
+    Rf (regularBody c rec x s) := by
+  unfold regularBody
+  split
+  · exact h
+  · exact hr _ _ h
+  · exact hr _ _ h
+  · exact h.mono rfl id
+  · split
+    · exact h.mono rfl id
+    · exact h
+
+theorem initdefBody_Rf (c : Cfg) (rec : Call → St → St) (hr : RfSpec rec) (x : Nat) (s : St) (h : Rf s) :
+    Rf (initdefBody c rec x s) := by
+  unfold initdefBody
+  split
+  · split
+    · exact hr _ _ (h.push _ (fun _ => by simp))
+    · exact h
+  · exact h
+
+theorem step2_Rf (c : Cfg) (rec : Call → St → St) (hr : RfSpec rec) (x : Nat) (s : St)
+    (h : Rf s) : Rf (step2 c rec x s) := by
+  unfold step2
+  dsimp only
+  have h1 : Rf (regularBody c rec x ((s.setSteps x (-2)).push (.regular x))) :=
+    regularBody_Rf c rec hr x _ ((h.mono (t := s.setSteps x (-2)) rfl id).push _ (fun _ => by simp))
+  split
+  · exact h1
+  · have h2 := initdefBody_Rf c rec hr x _ h1
+    split
+    · exact h2
+    · exact h2.mono rfl id
+
+theorem initBody_Rf (c : Cfg) (rec : Call → St → St) (hr : RfSpec rec) (x : Nat) (full : Bool) (s : St)
+    (h : Rf s) : Rf (initBody c rec x full s) := by
+  unfold initBody
+  dsimp only
+  generalize hs1 : (if s.steps x = 0 then step1 c rec x s else s) = s1
+  have h1 : Rf s1 := by
+    rw [← hs1]; split
+    · exact step1_Rf c rec hr x s h
+    · exact h
+  split
+  · exact step2_Rf c rec hr x _ h1
+  · exact h1
+
+theorem body_Rf (c : Cfg) (rec : Call → St → St) (hr : RfSpec rec) : RfSpec (body c rec) := by
+  intro call s h
+  unfold body
+  split
+  · exact h
+  · cases call with
+    | setOutput x v => exact setOutputBody_Rf c rec hr x v s h
+    | send ds v => exact sendBody_Rf rec hr ds v s h
+    | event d v => exact eventBody_Rf rec hr d v s h
+    | initS x full => exact initBody_Rf c rec hr x full s h
+
+theorem exec_Rf (c : Cfg) : ∀ fuel, RfSpec (exec c fuel)
+  | 0 => by
+    intro call s h
+    simp only [exec]
+    split
+    · exact h.mono rfl id
+    · exact h
+  | fuel + 1 => body_Rf c (exec c fuel) (exec_Rf c fuel)
+
+theorem foldl_Rf {α : Type} (f : St → α → St) (hf : ∀ s a, Rf s → Rf (f s a)) (l : List α) :
+    ∀ s, Rf s → Rf (l.foldl f s) := by
+  induction l with
+  | nil => intro s h; exact h
+  | cons a r ih => intro s h; exact ih _ (hf s a h)
+
+theorem run_Rf (c : Cfg) : Rf (run c) := by
+  have h0 : Rf init := by intro ⟨d, hd⟩; simp [init] at hd
+  have h1 : Rf (phase0 c init) := by
+    unfold phase0
+    apply foldl_Rf _ _ _ _ h0
+    intro s b hs
+    split
+    · exact hs
+    · split
+      · exact (exec_Rf c c.fuel _ _ (hs.push _ (fun _ => by simp))).mono (monitor_log _) (monitor_aborted _)
+      · exact hs
+  have hsync : ∀ s, Rf s → Rf (syncPhase c s) := by
+    intro s hs
+    unfold syncPhase
+    exact foldl_Rf _ (fun s b h => exec_Rf c c.fuel _ _ h) _ _ hs
+  have h2 := hsync _ h1
+  have h3 : Rf (asyncPhase c (syncPhase c (phase0 c init))) := by
+    unfold asyncPhase
+    split
+    · exact h2
+    · dsimp only
+      have hp := foldl_Rf (fun s b => s.push (.async b (s.out b).isUndef (c.blk b).timeout))
+        (fun s b h => h.push _ (fun _ => by simp)) (eligible c (syncPhase c (phase0 c init))) _ h2
+      have hq := foldl_Rf (applyEvent c) (by
+        intro s e hs
+        unfold applyEvent
+        split
+        · exact hs
+        · split
+          · exact hs.push _ (fun _ => by simp)
+          · split
+            · next v f hv =>
+              have := exec_Rf c c.fuel (.setOutput e.blk v) _ (hs.push (.asyncDone e.blk) (fun _ => by simp))
+              split
+              · exact this.mono (monitor_log _) (monitor_aborted _)
+              · exact this.mono rfl id
+            · exact hs.push _ (fun _ => by simp)
+            · exact hs)
+        (schedule ((eligible c (syncPhase c (phase0 c init))).map (mkTask c))).2 _ hp
+      split
+      · exact hq.mono rfl id
+      · exact hq
+  have h4 := hsync _ h3
+  have h5 : Rf (check c (syncPhase c (asyncPhase c (syncPhase c (phase0 c init))))) := by
+    unfold check
+    split
+    · exact h4
+    · split
+      · exact h4
+      · exact h4.mono rfl id
+  show Rf (firstPass c _)
+  unfold firstPass
+  split
+  · exact h5
+  · dsimp only; split <;> exact Rf.mono h5 rfl id
 
 end Edzed.Init
